@@ -440,7 +440,7 @@ def correspond(chk, name, imports, case_type, check_fn, cases, pred_fail, descri
                 reported += 1
             if reported >= 3:
                 break
-    if bad and reported == 0:
+    if bad and reported == 0 and not any(v["kind"] == "counterexample" for v in chk.violations):
         nf = [i for i in bad if pred_fail[i] is None]
         if nf:
             i = nf[0]
